@@ -359,8 +359,19 @@ CHECKED_SUB = ("core::num::<impl u16>::checked_sub", "core::num::<impl usize>::c
 
 
 def sat_sub_form(e):
-    """Recognise `x.saturating_sub(K)` / `x.checked_sub(K).unwrap_or(0)`; returns (x_expr, K) or None."""
+    """Recognise max(x − K, 0): `x.saturating_sub(K)`, `x.checked_sub(K).unwrap_or(0)` / `.unwrap_or_default()`, and the
+    guarded form `if x > K { x - K } else { 0 }` (sliced as phi(0, x − K); the guard itself is what discharges the
+    subtraction's overflow assert under C01 R1.1).  Returns (x_expr, K) or None."""
     e = peel(e, widen=True)
+    if e[0] == "phi" and len(e[1]) == 2:
+        ms = [peel(m, widen=True) for m in e[1]]
+        zeros = [m for m in ms if const_eval(m) == {0}]
+        subs = [m for m in ms if (m[0] == "binop" and m[1] in ("Sub", "SubUnchecked")) or (m[0] == "tfield" and m[2] == 0 and peel(m[1])[0] == "binop" and peel(m[1])[1] == "SubWithOverflow")]
+        if len(zeros) == 1 and len(subs) == 1:
+            b = subs[0] if subs[0][0] == "binop" else peel(subs[0][1])
+            k = const_eval(b[3])
+            if k and len(k) == 1:
+                return (b[2], next(iter(k)))
     if e[0] == "call" and e[2] is not None:
         if e[2].is_(*SAT_SUB) and len(e[3]) == 2:
             k = peel(e[3][1])
@@ -415,7 +426,7 @@ def rule_body_lengths(ctx, prog, an, rule):
             ctx.ob(rule, path, "single-delimited-body", False, "expected one map_res(take(n), ..) step, found %d: %s" % (len(takes), [term_s(s["term"]) for s in L["steps"]]))
             continue
         i, s = takes[0]
-        nexpr = an.simp(s["term"][1][1])
+        nexpr = an.expand(s["term"][1][1])
         form = sat_sub_form(nexpr)
         # header = the struct step(s) before
         hdr_steps = L["steps"][:i]
